@@ -268,6 +268,18 @@ def lagrangian_bound(vars_, objective, constraints, weights, box):
     return out
 
 
+def dual_infeasible(vars_, objective, constraints):
+    """True if the objective decreases along a recession direction of the constraints
+    (homogeneous epigraph LP over the unit box): then 'dual infeasible' is a correct answer
+    even when the problem is primal infeasible as well."""
+    lp, cvec, c0 = build(vars_, objective, constraints)
+    A_ub, _ = lp.matrices(lp.ub)
+    A_eq, _ = lp.matrices(lp.eq)
+    bounds = [(-1.0, 1.0)] * lp.nx + [(None, None)] * (lp.n - lp.nx)
+    res = _linprog(cvec, A_ub, np.zeros(A_ub.shape[0]), A_eq, np.zeros(A_eq.shape[0]), bounds)
+    return _status(res) == "unbounded" or (_status(res) == "optimal" and res.fun < -1e-7)
+
+
 def rank_ok(vars_, constraints):
     """the equality rows (as the oracle forms them) have full row rank"""
     lp = EpiLP(vars_)
